@@ -96,6 +96,9 @@ def enumerate_faults(data: bytes) -> list[dict]:
         out.append({"fault": "rename_slides", "mode": mode, "seed": 3})
     for v in range(3):
         out.append({"fault": "path_arg", "variant": v})
+    for k_ in range(min(4, sum(1 for n in pkg.reachable if n.startswith("/ppt/slides/slide")))):
+        # a slide no longer listed in p:sldIdLst whose relationship and part stay behind: the listed slides' names are non-contiguous
+        out.append({"fault": "unlist_slide", "k": k_})
     out.append({"fault": "remove_core_props", "how": "member"})
     out.append({"fault": "remove_core_props", "how": "member+rel"})
     for b in zip_boundaries(data):
@@ -155,6 +158,11 @@ def apply_fault(data: bytes, x: dict) -> bytes:
         r = random.Random(v)
         return [b"", b"PK", r.randbytes(64), b"\x89PNG\r\n\x1a\n" + r.randbytes(100), gzip.compress(data[:200], mtime=0),
                 b"<?xml version='1.0'?><p:presentation/>"][v]
+    if f == "unlist_slide":
+        try:
+            return pkgxform.unlist_slide(data, x.get("k", 0))
+        except Exception:  # noqa: BLE001
+            return data
     if f == "rename_slides":
         try:
             return pkgxform.rename_slides(data, x["mode"], x.get("seed", 0))
@@ -514,7 +522,7 @@ def execute(trace: dict, known, collect_log=True) -> dict:
                     report("preserve|slide-order-after-second-save", "in memory=%r re-opened=%r" % (got_ids, ids3), CLAUSES["preserve"])
                 # third stage, only for irregularities that leave every part present, typed and related (renamed slide parts, case
                 # differences, extra members, no core properties): the deck takes a new slide like any other
-                if all(x["fault"] in ("rename_slides", "case_flip_ct", "extra_member", "remove_core_props") for x in trace.get("faults", [])) and not ref.dangling:
+                if all(x["fault"] in ("rename_slides", "case_flip_ct", "extra_member", "remove_core_props", "unlist_slide", "case_flip_partname") for x in trace.get("faults", [])) and not ref.dangling:
                     try:
                         layouts = list(prs.slide_layouts)
                     except Exception:  # noqa: BLE001
@@ -642,7 +650,7 @@ def pinned_traces(tier):
     for deck in ("default.pptx", "t-minimal.pptx", "t-no-core-props.pptx", "t-missing_rels_item.pptx", "f-ext-rels.pptx"):
         seen = set()
         for x in enumerate_faults(deck_bytes(deck)):
-            if x["fault"] in seen and x["fault"] not in ("non_zip", "missing_mandatory", "wrong_main_ctype", "extra_member", "rename_slides"):
+            if x["fault"] in seen and x["fault"] not in ("non_zip", "missing_mandatory", "wrong_main_ctype", "extra_member", "rename_slides", "unlist_slide", "path_arg"):
                 continue
             seen.add(x["fault"])
             for form in ("stream", "path", "dir"):
